@@ -208,7 +208,7 @@ def run_suite(pid, suite, tier, seed, fuzzing=False):
         procs.append((k, subprocess.Popen([DRIVER, cf, f"{wd}/{tag}.shard{k}.model", f"{wd}/{tag}.shard{k}.spec"] + (["fuzzing"] if fuzzing else []),
                                           stdout=subprocess.PIPE, stderr=subprocess.STDOUT, preexec_fn=_big_stack)))
     for k, p in procs:
-        out, _ = p.communicate(timeout=14400)
+        out, _ = p.communicate(timeout=(5400 if tier == "thorough" else 1500))
         if p.returncode != 0:
             raise RuntimeError(f"driver failed on suite {suite} shard {k}: {out.decode()[-2000:]}")
         os.remove(f"{wd}/{tag}.shard{k}.cases")
